@@ -276,27 +276,50 @@ def sweep(col, which):
                         tail=1200 * KI)], 'kind': 'hostile'})
     elif which.startswith('fields:'):
         from vcheck import imggen
-        fmt = which[7:]
+        fmt, _, first = which[7:].partition(':')
         fields = imggen.FIELDS[fmt]
+        firsts = fields if not first else [fields[int(first)]]
         # each field alone at each hostile value, and each ordered pair of
         # fields as (small in-stream offset, huge length)
-        for off, width, order in fields:
+        for off, width, order in firsts:
             for val in (4096, 600 * KI, 2 ** 32 - 1, 2 ** 64 - 1):
                 cases.append({'base': [fmt, {}], 'kind': 'hostile',
                               'edits': [[off, imggen.field_bytes(
                                   val, width, order).hex()]],
                               'extend': [3, 1700 * KI]})
-        for (o1, w1, e1) in fields:
+        for (o1, w1, e1) in firsts:
             for (o2, w2, e2) in fields:
                 if o1 == o2:
                     continue
-                cases.append({'base': [fmt, {}], 'kind': 'hostile',
-                              'edits': [[o1, imggen.field_bytes(
-                                  4096, w1, e1).hex()],
-                                  [o2, imggen.field_bytes(
-                                      2 ** (8 * w2) - 1 if w2 < 8 else MI,
-                                      w2, e2).hex()]],
-                              'extend': [3, 1700 * KI]})
+                for v1 in (0, 4096):
+                    for v2 in (2 ** (8 * w2) - 1, 8192):
+                        cases.append({'base': [fmt, {}], 'kind': 'hostile',
+                                      'edits': [[o1, imggen.field_bytes(
+                                          v1, w1, e1).hex()],
+                                          [o2, imggen.field_bytes(
+                                              v2, w2, e2).hex()]],
+                                      'extend': [3, 1700 * KI]})
+    elif which == 'repeat':
+        # a structure repeated far more often than any real image has it
+        for n in (1, 16, 300, 700):
+            for t in (0, 2, 3):
+                for term in (True, False):
+                    # descriptor set led by the primary descriptor, and led
+                    # by a non-primary one (boot record / supplementary)
+                    for first in (1, t):
+                        cases.append({'base': ['iso', dict(
+                            dtype=first, extra=n, extra_type=t,
+                            terminator=term, tail=600 * KI)],
+                            'kind': 'hostile'})
+        many = tuple('ddb.key%d = "%s"' % (i, 'v' * 40) for i in range(3000))
+        cases.append({'base': ['vmdk', dict(
+            lines=('createType="monolithicSparse"',) + many +
+            ('RW 1 SPARSE "d.vmdk"',), grain_data=1600 * KI)],
+            'kind': 'hostile'})
+        cases.append({'base': ['vhdx', dict(region_before=2045,
+                                            region_after=0, meta_before=2045,
+                                            meta_after=0, tail=700 * KI)],
+                      'kind': 'hostile'})
     else:
         cases.append({'base': ['raw', dict(length=2 * MI + 100, kind='ascii',
                                            fill=3)], 'kind': 'text'})
@@ -316,12 +339,15 @@ def sweep(col, which):
 
 
 def tasks(tier, seed):
-    out = [Task('sweep', sweep, which=w) for w in ('vmdk', 'vhdx', 'other')]
+    out = [Task('sweep', sweep, which=w) for w in ('vmdk', 'vhdx', 'other',
+                                                    'repeat')]
     from vcheck import imggen
     for fmt in imggen.FORMATS:
-        if imggen.FIELDS.get(fmt) and (tier == 'thorough' or
-                                       len(imggen.FIELDS[fmt]) <= 20):
-            out.append(Task('sweep', sweep, which='fields:' + fmt))
+        nf = len(imggen.FIELDS.get(fmt) or ())
+        if nf and (tier == 'thorough' or nf <= 20):
+            for i in range(nf):
+                out.append(Task('sweep', sweep,
+                                which='fields:%s:%d' % (fmt, i)))
     ex, shards = (30, 13) if tier == 'quick' else (500, 16)
     for i in range(shards):
         out.append(Task('bound', bound,
